@@ -28,6 +28,8 @@ type Job struct {
 	Tears         bool // torn unsynced tails at a crash (C14)
 	FilterSummary bool // assume/guarantee summary of the bloom filter (guarantee = C16)
 	Coins         bool // explore skiplist level coins
+	OnlyAsserts   []string
+	IgnorePanics  bool
 	SymIndex      bool // keep symbolic indices into scalar slices symbolic (bloom bitset)
 	NoSummaries   bool
 	SameSecond    bool // every WAL name falls into the same second (nanosecond digits decide)
@@ -139,6 +141,8 @@ func (r *propRun) explore(j Job) *jobResult {
 		m.ExploreCrash = j.Fn2 != ""
 		m.MaxCrashes = j.MaxCrashes
 		m.ExploreTears = j.Tears
+		m.OnlyAsserts = j.OnlyAsserts
+		m.IgnorePanics = j.IgnorePanics
 		m.SymIndex = j.SymIndex
 		m.NoSummaries = j.NoSummaries
 		m.Seed = r.seed
